@@ -320,7 +320,7 @@ func c07diamonds(t *testing.T, rep *lib.Report) {
 				for si := 0; si < c.splits; si++ {
 					sid := ""
 					if c.userIDs {
-						sid = []string{"zz-pod", "mid", "aa-pod"}[si] // start-time order differs from ID order
+						sid = []string{"zz-pod", "split-1", "diamond-x"}[si] // start-time order differs from ID order; two IDs look like descriptor file names
 					}
 					desc := model.NewSplitDescriptor(model.SplitID(sid), model.SplitContributor(model.Contributor{Name: "v", Email: "v@x.io"}))
 					sd, err := core.CreateSplit("a", dd.DiamondID, st, core.SplitDescriptor(desc), core.SplitLogger(nopLogger))
